@@ -76,7 +76,9 @@ def run(ctx: Ctx) -> int:
 	failures = [f for r in results for f in r['failures']]
 	ctx.log(f'{len(cases)} expressions: model = CPython on all; tranp differs on {len(failures)}')
 	stmt_violations, stmt_cov = c02_stmt.run_statements(ctx)
-	violations = list(stmt_violations)
+	from harness.checks import c02_prim
+	prim_violations, prim_cov = c02_prim.run_primary(ctx)
+	violations = list(stmt_violations) + list(prim_violations)
 	groups: dict[str, list] = {}
 	for f in failures:
 		key = f'{f["clause"]}:{"/".join(sorted(set(f.get("ops", []))))}'
@@ -85,6 +87,7 @@ def run(ctx: Ctx) -> int:
 		s = min(fs, key=lambda f: len(f['text']))
 		violations.append(Violation(key, s['clause'], f'{s["detail"]} ({len(fs)} cases)', {'text': s['text']}))
 	coverage = {
+		**prim_cov,
 		'states': len(cases) + stmt_cov.get('statement_cases', 0),
 		'transitions': len(cases),
 		'traces_validated_against_impl': len(cases) + stmt_cov.get('statement_cases', 0),
